@@ -24,7 +24,7 @@ COMPILER_REPLAYS = {
     "u_art": ["replay/c15/foreign_core.sh"],
     "u_scope": ["replay/c05/run.sh", "replay/c05/shadow_toplevel.sh", "replay/c05/duplicate_params.sh", "replay/c06/crossfile_ctor.sh", "replay/c16/let_annotation.sh"],
     "u_closenv": ["replay/c08/run.sh"],
-    "u_liftty": ["replay/c08/nested_tuple.sh", "replay/c08/closure_callee.sh"],
+    "u_liftty": ["replay/c08/nested_tuple.sh", "replay/c08/closure_callee.sh", "replay/c08/closure_returns_closure.sh"],
     "u_tastlit": ["replay/c10/run.sh"],
     "u_block": ["replay/c17/method_value.sh"],
     "u_inherent": ["replay/c17/dup_inherent.sh", "replay/c17/overlap_inherent.sh"],
